@@ -407,7 +407,50 @@ def r10_canonical_keys_cover_the_whole_type(ctx):
         ctx.ob('C03.R10', ob.key, ob.ok, ob.loc, ob.detail, ob.nontrivial)
 
 
+UNRECORDING = {'remove', 'remove_entry', 'retain', 'clear', 'drain', 'extract_if', 'take', 'swap_remove', 'shift_remove', 'pop', 'truncate'}
+
+
+def r11_recorded_lifecycles_are_never_unrecorded(ctx):
+    ctx.rule('C03.R11', 'P3 who-may-mutate (grow-only, like C03.R8): the lifecycle a blueprint records for a component (`AuxiliaryData::id2lifecycle`, filled while the '
+             'blueprint is walked; a `.lifecycle(..)` override lands there) is what `resolve_annotation_coordinates` later reads to decide between the override '
+             'and the annotation\'s default. Nothing in pavexc removes entries from that map (`remove`, `retain`, `clear`, `drain`, `mem::take` ..): an entry '
+             'that is moved to another component leaves the first one with the annotation\'s lifecycle — a request-scoped override of a `#[transient]` '
+             'constructor is then built once per injection site.')
+    n_touch, bad = 0, []
+    for b in ctx.fb.bodies('pavexc'):
+        if b.is_promoted:
+            continue
+        defs = None
+        for bb, t in b.calls():
+            if not t['args']:
+                continue
+            c = callee(t) or ''
+            m = c.split('::')[-1].split('<')[0]
+            pl = op_place(t['args'][0])
+            if pl is None:
+                continue
+            fields = [p for p in pl.get('p', []) if p.startswith('f:')]
+            if not fields:
+                defs = defs or Defs(b)
+                for _, _, nd in defs.full.get(pl['l'], []):
+                    rv = nd.get('rv')
+                    if rv and rv['k'] in ('ref', 'use', 'cfd', 'rawptr'):
+                        q = rv.get('pl') or op_place(rv.get('op', {})) or {}
+                        fields += [p for p in q.get('p', []) if p.startswith('f:')]
+            # a closure captures the field itself (disjoint capture): the receiver is then recognised by its type, a map into Lifecycle
+            aty0 = (t.get('aty') or [''])[0]
+            by_type = 'Map<' in aty0 and aty0.rstrip('>').rstrip().endswith('Lifecycle') or ('Map<' in aty0 and 'Lifecycle>' in aty0.replace(' ', ''))
+            if 'f:id2lifecycle' not in fields and not by_type:
+                continue
+            n_touch += 1
+            if m in UNRECORDING or c.startswith('core::mem::take') or c.startswith('core::mem::replace') or c.startswith('core::mem::swap'):
+                bad.append('%s at %s' % (m, b.loc(bb, t)))
+    ctx.floor('C03.R11', 'calls on AuxiliaryData::id2lifecycle', n_touch, 3)
+    ctx.ob('C03.R11', 'id2lifecycle-only-grows', not bad, bad[0].split(' at ')[1] if bad else '', 'un-recording operations on id2lifecycle: %s (%d calls on the map seen)' % (bad or 'none', n_touch))
+
+
 def check(ctx):
+    r11_recorded_lifecycles_are_never_unrecorded(ctx)
     r10_canonical_keys_cover_the_whole_type(ctx)
     r1_tables(ctx)
     r2_dedup(ctx)
